@@ -124,6 +124,47 @@ def rule_push(ctx):
               "Flow::<Prepare>::header forwards to set_header of the flow's request", loc=body_loc(fh))
 
 
+def rule_push_appends(ctx):
+    """R16.2b: `push` of the fixed-capacity list the added headers live in appends: on every returning path the length has
+    grown by exactly one and the slot at the old length holds the pushed value (no de-duplication, no replacement)"""
+    R = "R16.2"
+    prog = ctx.prog
+    pu = prog.find("ArrayVec::<T, N>::push")
+    if not ctx.require(pu, R, "entry:push", "ArrayVec::push"):
+        return
+    from .interp import mkproj, PathLimit, Unsupported
+    V = ("OBJ", "vec")
+    I = mk_interp(prog)
+    I.assume_unknown_asserts = True        # the capacity assert is R10.4's / R16.3's business
+
+    def init(st):
+        st.write_leaf(V, (), ("term", ("in", "vec")))
+    try:
+        outs = I.run(pu, [ref(V), {(): ("term", ("in", "value"))}], init)
+    except (PathLimit, Unsupported) as e:
+        ctx.incomplete(R, "interp:push", str(e))
+        return
+    len0 = ("term", mkproj(("in", "vec"), (("f", "len"),)))
+    bad = []
+    n = 0
+    for o in outs:
+        if o.kind != "return":
+            continue
+        n += 1
+        d = o.state.mem.get(V, {})
+        ln = d.get((("f", "len"),))
+        if ln != ("term", ("arith", "Add", len0, ("int", 1))):
+            bad.append("a push can return with the length %s" % ("unchanged" if ln is None or ln == len0 else repr(ln)[:80]))
+        slot = (("f", "arr"), ("f", "[%r]" % (len0[1],)))
+        if d.get(slot) != ("term", ("in", "value")):
+            bad.append("a push can return without the value stored at the old length (slot holds %s)" % repr(d.get(slot))[:80])
+        others = [pth for pth in d if pth[:1] == (("f", "arr"),) and len(pth) >= 2 and pth[:2] != slot and d[pth] != ("top",)]
+        if others:
+            bad.append("a push stores to another slot as well: %s" % repr(others[0])[:80])
+    ctx.check(n >= 1 and not bad, R, "push-appends", "ArrayVec::push grows the list by exactly one element, the pushed value, at the end "
+              "(%d returning path(s))" % n, loc=body_loc(pu), detail=sorted(set(bad))[:3])
+
+
 def rule_capacity(ctx):
     R = "R16.4"
     n = ctx.prog.const_int("MAX_EXTRA_HEADERS")
@@ -201,4 +242,4 @@ def rule_line_format(ctx):
     rule_header_lines(ctx)
 
 
-RULES = [rule_adaptors, rule_push, rule_append_only, rule_header_order, rule_line_format, rule_capacity]
+RULES = [rule_adaptors, rule_push, rule_push_appends, rule_append_only, rule_header_order, rule_line_format, rule_capacity]
